@@ -60,14 +60,14 @@ def bounds(tier):
             "matrix_total": 4, "matrix_total_variants": 2, "order_len": 3,
             "noncanon": {"one_column_total": 2, "two_columns_total": 1},
             "three": {"ACGT": 2, "ACN-": 2}, "protein_total": 3,
-            "nj_tips_len123": 5, "nj_tips_len12": 6, "nj_forms_tips": 4,
+            "nj_tips_len128": 5, "nj_tips_len18": 6, "nj_forms_tips": 4,
             "upgma": {"2": 4, "3": 4, "4": 4, "5": 4, "6": 3},
         },
         "thorough": {
             "matrix_total": 6, "matrix_total_variants": 3, "order_len": 4,
             "noncanon": {"one_column_total": 3, "two_columns_total": 2},
             "three": {"ACGT": 2, "ACGTN-": 2, "ACN": 3}, "protein_total": 4,
-            "nj_tips_len123": 6, "nj_tips_len12": 7, "nj_forms_tips": 5,
+            "nj_tips_len128": 6, "nj_tips_len18": 7, "nj_forms_tips": 5,
             "upgma": {"2": 5, "3": 5, "4": 5, "5": 5, "6": 5, "7": 3},
         },
     }[tier]
@@ -498,8 +498,8 @@ def shards(tier, seed):
                 out.append({"part": "three", "L": L, "alphabet": alpha, "chunk": c, "of": of})
     for n in range(1, b["protein_total"] + 1):
         out.append({"part": "protein", "n": n})
-    for n in range(3, max(b["nj_tips_len123"], b["nj_tips_len12"]) + 1):
-        vals = [1, 2, 3] if n <= b["nj_tips_len123"] else [1, 2]
+    for n in range(3, max(b["nj_tips_len128"], b["nj_tips_len18"]) + 1):
+        vals = [1, 2, 8] if n <= b["nj_tips_len128"] else [1, 8]
         ntrees = {3: 1, 4: 4, 5: 26, 6: 236, 7: 2752}[n]
         of = 1 if n < 5 else (26 if n == 5 else (118 if n == 6 else 344))
         of = min(of, ntrees)
